@@ -83,6 +83,8 @@ uint64_t hashv = 0, shash = 0;
 std::vector<Event> evlog;
 std::vector<uint32_t> decs;
 std::map<const void*, int> mowner;
+std::map<const void*, int> mdepth;   // extra acquisitions of recursive mutexes
+bool is_recursive(pthread_mutex_t* m) { return (m->__data.__kind & 3) == PTHREAD_MUTEX_RECURSIVE_NP; }   // glibc layout
 std::vector<std::pair<std::string, long>> ctrs;
 vsim::fatal_cb on_fatal = nullptr;
 long cond_wait_calls = 0;
@@ -379,7 +381,7 @@ uint32_t choose(uint32_t n, int kind) { return decide(n, kind, uint32_t(rng.next
 void begin(const Config& c) {
   for (auto c : carriers) if (!c->th || c->th->state == FIN) { c->idle = true; c->th = nullptr; }
   for (auto t : ths) delete t;
-  ths.clear(); mowner.clear(); evlog.clear(); decs.clear(); ctrs.clear();
+  ths.clear(); mowner.clear(); mdepth.clear(); evlog.clear(); decs.clear(); ctrs.clear();
   cfg = c; rng.seed(c.seed); replay_pos = 0; steps = 0; g_seq = 0; cond_wait_calls = 0; last_run_tid = 0;
   hashv = 1469598103934665603ull; shash = 1469598103934665603ull;
 #ifdef VSIM_PROC
@@ -417,6 +419,7 @@ int pthread_mutex_lock(pthread_mutex_t* m) {
   if (!SIM_ON) { static auto f = real<int (*)(pthread_mutex_t*)>("pthread_mutex_lock"); return f(m); }
   ypoint();   // scheduling point before the operation
   auto it = mowner.find(m);
+  if (it != mowner.end() && it->second == self->id && is_recursive(m)) { mdepth[m]++; vsim::count("recursive_mutex_reentered"); return 0; }
   if (it != mowner.end() && it->second == self->id) {
     char b[512];
 #ifdef VSIM_PROC
@@ -436,13 +439,17 @@ int pthread_mutex_lock(pthread_mutex_t* m) {
 int pthread_mutex_trylock(pthread_mutex_t* m) {
   if (!SIM_ON) { static auto f = real<int (*)(pthread_mutex_t*)>("pthread_mutex_trylock"); return f(m); }
   ypoint();
-  if (mowner.count(m)) return EBUSY;
+  { auto it = mowner.find(m); if (it != mowner.end()) { if (it->second == self->id && is_recursive(m)) { mdepth[m]++; return 0; } return EBUSY; } }
   mowner[m] = self->id; ypoint(); return 0;
 }
 int pthread_mutex_unlock(pthread_mutex_t* m) {
   if (!SIM_ON) { static auto f = real<int (*)(pthread_mutex_t*)>("pthread_mutex_unlock"); return f(m); }
   auto it = mowner.find(m);
-  if (it != mowner.end() && it->second == self->id) mowner.erase(it);
+  if (it != mowner.end() && it->second == self->id) {
+    auto d = mdepth.find(m);
+    if (d != mdepth.end() && d->second > 0) { d->second--; return 0; }
+    mowner.erase(it);
+  }
   vsim::event(4, (long)self->id, 0);
   ypoint();
   return 0;
